@@ -278,6 +278,25 @@ def run_shard(spec):
                     V("after_resolve:" + f["key"], "solve #%d: %s" % (k_solve, f["what"]), solve_index=k_solve, **wit)
                 elif f["grade"] == "violated":
                     counters["first_solve_findings(other properties)"] = counters.get("first_solve_findings(other properties)", 0) + 1
+            # the per-function dual tables (the user's view of the certificate) must refer to the constraints of THIS solve
+            if k_solve > 1:
+                import pandas as pd
+                from PEPit.function import Function
+                from PEPit.constraint import Constraint
+                for fn in Function.list_of_functions:
+                    if not fn.get_is_leaf():
+                        continue
+                    cur = {id(c) for c in fn.list_of_class_constraints}
+                    stale = 0
+                    for tname, tb in fn.tables_of_constraints.items():
+                        if isinstance(tb, pd.DataFrame):
+                            stale += sum(1 for el in tb.to_numpy().ravel() if isinstance(el, Constraint) and id(el) not in cur)
+                    counters["dual_table_entries_checked_after_resolve"] = counters.get("dual_table_entries_checked_after_resolve", 0) + len(cur)
+                    if stale:
+                        V("dual_tables_refer_to_an_earlier_solve:" + type(fn).__name__,
+                          "solve #%d: %d entries of the tables of constraints of a %s are constraints of an earlier solve (their multipliers are "
+                          "not those of the latest certificate)" % (k_solve, stale, type(fn).__name__), solve_index=k_solve, **wit)
+                        break
             # (b)(c) compare with a freshly built equivalent model (last solve always, others sometimes)
             is_last = op is sched[-1]
             if k_solve > 1 and (is_last or rng.random() < 0.35) and injected is None:
